@@ -1,0 +1,126 @@
+//go:build verif
+
+// Contracts for the govc deductive verifier (see /verif/DESIGN.md). This file
+// contains comments only and is compiled only with the build tag "verif".
+
+package main
+
+// ---------------------------------------------------------------------------
+// Listener set of one configuration generation (C10, C13, C18, C19)
+// ---------------------------------------------------------------------------
+
+//@ locklevel listenerSet.listenersMu = 5
+//@ guarded listenerSet.{listenerCloseFuncs} by listenerSet.listenersMu
+//@ guarded listenerSet.{manager} class immutable set when the set is created
+
+// `closed` records that Close has run (every handle the generation acquired has been asked to
+// close; assumption: closing a listener handle does not fail): this is what "nothing of a
+// failed configuration is left" means here.
+//@ ghost field listenerSet.closed bool
+
+//@ lockinv[C10] listenerSet.listenersMu(ls) := forall k string :: has(ls.listenerCloseFuncs, k) ==> ls.listenerCloseFuncs[k] != nil
+
+//@ func listenerSet.listenerCloseFuncs
+//@   abstract
+//@   acquires-level 10
+
+//@ func (*listenerSet).ListenStream
+//@   props C10 C13 C18 C19
+//@   acquires-level 5
+//@   requires ls != nil && ls.manager != nil
+//@   assume-at-lock ls.listenerCloseFuncs != nil
+//@   ensures result.1 == nil ==> result.0 != nil
+//@ func (*listenerSet).ListenPacket
+//@   props C10 C13 C18 C19
+//@   acquires-level 5
+//@   requires ls != nil && ls.manager != nil
+//@   assume-at-lock ls.listenerCloseFuncs != nil
+//@   ensures result.1 == nil ==> result.0 != nil
+//@ func (*listenerSet).Close
+//@   props C10 C13 C18 C19
+//@   acquires-level 5
+//@   requires ls != nil
+//@   ghost-at-exit ls.closed := true
+//@ func (*listenerSet).Len
+//@   props C18 C19
+//@   requires ls != nil
+//@   trusted-access listenerSet.listenerCloseFuncs Len is only called by the goroutine that owns the set, after it has finished adding listeners
+
+//@ dispatch service.ListenerManager.ListenStream service.(*listenerManager).ListenStream
+//@ dispatch service.ListenerManager.ListenPacket service.(*listenerManager).ListenPacket
+
+// ---------------------------------------------------------------------------
+// Configuration (re)loading (C07, C10, C11, C18)
+// ---------------------------------------------------------------------------
+
+//@ pred validServer(s *OutlineServer) := s != nil && s.lnManager != nil && validServerMetrics(s.serverMetrics)
+
+//@ func OutlineServer.stopConfig
+//@   abstract
+
+//@ func (*OutlineServer).Stop
+//@   props C10 C18
+//@   requires s != nil
+//@   trace[C10,stops-current-once] atmost 1 main.OutlineServer.stopConfig
+
+// loadConfig is all-or-nothing: on error the running configuration is untouched and was
+// not stopped; on success the old one is stopped exactly once, after the new one started.
+//@ func (*OutlineServer).loadConfig
+//@   props C07 C10 C11 C18 C19
+//@   requires validServer(s)
+//@   ensures[C10,failure-keeps-old] result != nil ==> s.stopConfig == old(s.stopConfig)
+//@   trace[C10,failure-does-not-stop-old] never main.(*OutlineServer).Stop when result != nil
+//@   trace[C10,success-stops-old-once] exactly 1 main.(*OutlineServer).Stop when result == nil
+//@   trace[C11,start-new-before-stop-old] before main.(*OutlineServer).runConfig main.(*OutlineServer).Stop
+//@   trace[C10,one-generation-per-load] atmost 1 main.(*OutlineServer).runConfig
+//@   ensures[C07,history-survives-reload] s.replayCache.active == old(s.replayCache.active) && s.replayCache.archive == old(s.replayCache.archive) && s.replayCache.capacity == old(s.replayCache.capacity)
+
+//@ func readConfig
+//@   props C18
+//@   ensures result.1 == nil ==> result.0 != nil
+//@ func (*Config).Validate
+//@   props C09 C18
+//@   requires c != nil
+
+//@ func (*OutlineServer).runConfig
+//@   props C10 C18
+//@   requires validServer(s)
+//@   ensures result.1 == nil ==> result.0 != nil
+
+// Message invariant of the channel on which a generation reports how its start went: an error
+// is reported only after everything the generation had acquired has been closed again.
+//@ pred chaninv_startErrCh(v error) := v != nil ==> lnSet.closed
+
+// goroutine of one configuration generation
+//@ func (*OutlineServer).runConfig$1
+//@   props C10 C18
+//@   goroutine
+//@   acquires-level 5
+//@   requires validServer(s) && startErrCh != nil && !closed(startErrCh) && stopErrCh != nil && !closed(stopErrCh) && stopCh != nil
+// start function of a generation
+//@ func (*OutlineServer).runConfig$1$1
+//@   props C07 C09 C10 C18
+//@   acquires-level 5
+//@   arith-trusted the number of configured access keys does not overflow an int
+//@   requires validServer(s) && lnSet != nil && lnSet.manager != nil
+// stop function handed back to loadConfig
+//@ func (*OutlineServer).runConfig$2
+//@   props C10 C18
+//@   requires stopCh != nil && !closed(stopCh) && stopErrCh != nil
+
+//@ pred validServerMetrics(m *serverMetrics) := m != nil && m.buildInfo != nil && m.accessKeys != nil && m.ports != nil
+//@ func (*serverMetrics).SetNumAccessKeys
+//@   props C18
+//@   requires validServerMetrics(m)
+
+//@ func RunOutlineServer$1
+//@   props C18
+//@   goroutine
+//@   requires validServer(server) && sigHup != nil
+//@ func RunOutlineServer
+//@   props C07 C18
+//@   requires replayHistory <= 20000 && validServerMetrics(serverMetrics)
+
+//@ func newCipherListFromConfig
+//@   props C09 C18
+//@   ensures result.1 == nil ==> result.0 != nil
